@@ -179,6 +179,44 @@ func (p *pair) deriveFunding() error {
 
 var scriptKinds = []string{"p2wkh", "p2wsh", "p2tr"}
 
+// scriptDust: relay dust limit of an output paying to each script kind (what
+// lnwallet.DustLimitForSize prices by script length); planning data only — it
+// chooses which balances are enumerated, no oracle uses it.
+var scriptDust = map[string]int64{"p2wkh": 294, "p2wsh": 330, "p2tr": 330, "wv2": 354, "p2sh": 540, "p2pkh": 546}
+
+// wireScriptKinds are the kinds an honest lnd peer accepts in shutdown;
+// allScriptKinds adds the legacy ones the channel API itself does not refuse.
+var (
+	wireScriptKinds = []string{"p2wkh", "p2wsh", "p2tr", "wv2"}
+	allScriptKinds  = []string{"p2wkh", "p2wsh", "p2tr", "wv2", "p2sh", "p2pkh"}
+)
+
+// scriptPairs: ordered pairs over kinds; onlyDiffDust keeps the pairs whose two
+// scripts have different dust limits.
+func scriptPairs(kinds []string, onlyDiffDust bool) [][2]string {
+	var out [][2]string
+	for _, a := range kinds {
+		for _, b := range kinds {
+			if onlyDiffDust && scriptDust[a] == scriptDust[b] {
+				continue
+			}
+			out = append(out, [2]string{a, b})
+		}
+	}
+	return out
+}
+
+// dustTargets: every distinct script dust limit of kinds -1/0/+1, zero, and a large value.
+func dustTargets(kinds []string) []int64 {
+	s := map[int64]bool{0: true, 5000: true}
+	for _, k := range kinds {
+		for _, d := range []int64{-1, 0, 1} {
+			s[scriptDust[k]+d] = true
+		}
+	}
+	return sortedKeys(s)
+}
+
 // deliveryScript returns a well-formed delivery script of the given kind,
 // distinct per party.
 func deliveryScript(kind string, party int) []byte {
@@ -195,6 +233,17 @@ func deliveryScript(kind string, party int) []byte {
 		return append([]byte{0x00, 0x14}, fill(20, seed)...)
 	case "p2wsh":
 		return append([]byte{0x00, 0x20}, fill(32, seed+1)...)
+	case "p2sh":
+		// OP_HASH160 <20> OP_EQUAL (23 bytes). lnd's own shutdown validation refuses
+		// it, so it only occurs in the api part (direct channel API).
+		return append(append([]byte{0xa9, 0x14}, fill(20, seed+2)...), 0x87)
+	case "p2pkh":
+		// OP_DUP OP_HASH160 <20> OP_EQUALVERIFY OP_CHECKSIG (25 bytes), api part only.
+		return append(append([]byte{0x76, 0xa9, 0x14}, fill(20, seed+3)...), 0x88, 0xac)
+	case "wv2":
+		// a future segwit version: OP_2 <30 bytes> (32 bytes): accepted by
+		// ValidateUpfrontShutdown, priced as an unknown witness output (354 sat).
+		return append([]byte{0x52, 0x1e}, fill(30, seed+4)...)
 	case "p2tr":
 		// x-only key of a fixed private key so the output is a valid taproot key.
 		var k [32]byte
